@@ -28,6 +28,9 @@ func init() {
 	simrt.Register(&simrt.Check{Name: "C05a", Property: "C05", Body: c05aBody, Classify: classify,
 		Real: []string{"DataPublisher (SetLJH22/SetLJH3/SetOFF, PublishData, SetPause, Flush, Remove*)", "ljh.Writer, ljh.Writer3, off.Writer", "asyncbufio.Writer with its writer goroutine and 3 s flush ticker (fake clock)", "OS file system (sandbox directory)"},
 		Stub: []string{"records are harness-made (no trigger pipeline in this world)"}})
+	simrt.Register(&simrt.Check{Name: "C07c", Property: "C07", Body: c07cBody, Classify: classify,
+		Real: []string{"DataPublisher.Flush / SetPause over all three writers of a channel", "ljh.Writer, ljh.Writer3, off.Writer", "asyncbufio.Writer with its writer goroutine and flush ticker (fake clock)", "OS file system (sandbox directory)"},
+		Stub: []string{"records are harness-made (no trigger pipeline in this world)", "disk slowness = the scheduler starving the writer goroutine"}})
 	simrt.Register(&simrt.Check{Name: "C07b", Property: "C07", Body: c07bBody, Classify: classify, MaxSteps: 1500000,
 		Real: []string{"ljh.Writer, ljh.Writer3, off.Writer public API", "asyncbufio.Writer (queue capacity 1000, flush ticker)", "OS file system (sandbox directory)"},
 		Stub: []string{"disk slowness = the scheduler starving the writer goroutine"}})
@@ -120,7 +123,14 @@ func genChanParams() chanParams {
 	return p
 }
 
-func c05aBody(env *simrt.Env) {
+func c05aBody(env *simrt.Env) { publisherBody(env, false) }
+
+// c07cBody is the publisher world with C07's completeness oracle: when DataPublisher.Flush or
+// SetPause(true) (which flushes) returns, every output file of the channel holds every record
+// accepted so far.
+func c07cBody(env *simrt.Env) { publisherBody(env, true) }
+
+func publisherBody(env *simrt.Env, flushOracle bool) {
 	p := genChanParams()
 	useLJH22, useLJH3, useOFF := false, false, false
 	switch simrt.Draw(5) {
@@ -154,6 +164,37 @@ func c05aBody(env *simrt.Env) {
 	env.Op("publisher ljh22=%v ljh3=%v off=%v nsamp=%d npre=%d nbases=%d subdiv=%d suboff=%d", useLJH22, useLJH3, useOFF, p.nsamp, p.npre, p.nbases, p.subdiv, p.suboff)
 
 	var want []wantRec // records accepted while unpaused
+	// flushed checks C07's completeness clause through the publisher (only in the C07c check)
+	flushed := func(what string) {
+		if !flushOracle {
+			return
+		}
+		files := []struct {
+			on    bool
+			kind  int
+			path  string
+			rsize int
+		}{{useLJH22, 0, f22, 16 + 2*p.nsamp}, {useLJH3, 1, f3, 24 + 2*p.nsamp}, {useOFF, 2, foff, 36 + 4*p.nbases}}
+		for _, f := range files {
+			if !f.on {
+				continue
+			}
+			b, err := os.ReadFile(f.path)
+			if err != nil {
+				if len(want) == 0 {
+					continue // created lazily with the first record
+				}
+				simrt.Fail("C07.flush-complete", "publisher:flush-incomplete", "%s returned, %d records were accepted, but %s does not exist", what, len(want), filepath.Base(f.path))
+			}
+			n := countWholeRecords(f.kind, b, p)
+			if n != len(want) {
+				simrt.Fail("C07.flush-complete", "publisher:flush-incomplete", "%s returned, %d records were accepted for this channel, but %s holds %d whole records (%d bytes): data accepted before the flush are not in the file", what, len(want), filepath.Base(f.path), n, len(b))
+			}
+		}
+		if useLJH22 && useOFF || useLJH22 && useLJH3 {
+			simrt.Hit("flush-with-several-outputs")
+		}
+	}
 	paused := false
 	seq := 0
 	nops := 3 + simrt.Draw(25)
@@ -169,6 +210,7 @@ func c05aBody(env *simrt.Env) {
 				dp.Flush()
 				pending = 0
 				env.Op("flush (keeps the queue below capacity)")
+				flushed("Flush")
 			}
 			if !paused {
 				pending += 8*n + 4
@@ -191,6 +233,7 @@ func c05aBody(env *simrt.Env) {
 			dp.Flush()
 			pending = 0
 			env.Op("flush")
+			flushed("Flush")
 			if published == 0 {
 				simrt.Hit("flush-before-first-record")
 			}
@@ -198,6 +241,7 @@ func c05aBody(env *simrt.Env) {
 			dp.SetPause(true)
 			paused = true
 			env.Op("pause")
+			flushed("SetPause(true)")
 		case k < 8:
 			dp.SetPause(false)
 			paused = false
